@@ -72,9 +72,25 @@ impl WorkerTree {
                 }
             } else {
                 let input = normalize_path(options.input());
+                let output_location = normalize_path(&output);
+                // what a previous run wrote in an output location that lies inside the input
+                // is not part of the input
+                let is_output_within_input = output_location != input
+                    && (input == Path::new(".")
+                        && output_location.is_relative()
+                        && !output_location.starts_with("..")
+                        || output_location.starts_with(&input));
 
                 for source in resources.collect_work(&input) {
                     let source = normalize_path(source);
+
+                    if is_output_within_input && source.starts_with(&output_location) {
+                        log::debug!(
+                            "skip `{}` because it is in the output location",
+                            source.display()
+                        );
+                        continue;
+                    }
 
                     let relative_path = if input == Path::new(".") {
                         // sources are normalized so they do not start with `.`
